@@ -66,6 +66,19 @@ int main(int argc, char** argv)
 		for (int i = 0; i < n; i++) { Sym s(0); for (int j = 0; j < n; j++) s = s + a[i][j] * x(j, 0); cl.push_back(eq(s, V("b", i))); }
 		sym_emit("solve", as, conj(cl));
 	}
+	else if (claim == "solvediv") {   // square n x n, nonsingular: the m-th distinct divisor (pivot) used on this pivot path is not zero
+		Matrix_<Sym> A(n, n), b(n, 1);
+		std::vector<std::vector<Sym> > a(n, std::vector<Sym>(n));
+		for (int i = 0; i < n; i++) { for (int j = 0; j < n; j++) { A(i, j) = V("a", i, j); a[i][j] = A(i, j); } b(i, 0) = V("b", i); }
+		Sym rd = refdet(a);
+		Matrix_<Sym> x = solve(A, b);
+		as.push_back("(not (= " + rd.n + " 0.0))");
+		std::vector<std::string> dv;
+		SymCtx& c = SymCtx::get();
+		for (size_t i = 0; i < c.divisors.size(); i++) { bool have = c.divisors[i] == "1.0"; for (size_t k = 0; k < dv.size(); k++) if (dv[k] == c.divisors[i]) have = true; if (!have) dv.push_back(c.divisors[i]); }
+		for (int k = 0; k < m && k < (int)dv.size(); k++) as.push_back("(not (= " + dv[k] + " 0.0))");
+		sym_emit("solvediv", as, m < (int)dv.size() ? "(not (= " + dv[m] + " 0.0))" : "true");
+	}
 	else if (claim == "lsq") {        // n x m (n > m): normal equations A^T A x = A^T b
 		Matrix_<Sym> A(n, m), b(n, 1);
 		std::vector<std::vector<Sym> > a(n, std::vector<Sym>(m));
